@@ -15,7 +15,7 @@ From Coq Require Import String Ascii.
 Require Import Hdl21.Base.PyInt Hdl21.Spec.SimSpec Hdl21.Model.SimExport Hdl21.Proofs.C17Proofs.
 Require Import Hdl21.Base.Dec Hdl21.Model.C17Float Hdl21.Proofs.C17NearestProofs Hdl21.Proofs.C17FloatProofs.
 Require Import Hdl21.Proofs.C17RoundProofs.
-Require Import Hdl21Gen.C17Tables.
+Require Import Hdl21Gen.C17Tables Hdl21Gen.C17Names.
 Open Scope list_scope.
 Open Scope Z_scope.
 
@@ -135,7 +135,7 @@ Print Assumptions C17_fields_nearest.
 Print Assumptions C17_nested_kept.
 
 (* 4. automatic names.  The name of the n-th unnamed analysis is a fixed prefix (the regenerated table entry
-      Hdl21Gen.C17Tables.auto_name_prefix, read off the live exporter - the property does not fix its spelling) followed by
+      Hdl21Gen.C17Names.auto_name_prefix, read off the live exporter - the property does not fix its spelling) followed by
       the decimal rendering of n; that function is injective, whatever the prefix; the names given to the unnamed analyses of an attribute list, at all nesting
       depths, outer before inner, are exactly auto_name k, auto_name (k+1), ... — hence pairwise distinct, for any
       number of unnamed analyses at any nesting. *)
